@@ -42,6 +42,10 @@ def units(tier, seed):
         for off in offs:
             us.append({"kind": "map", "spec": spec, "rep": "dsge", "depth": m + off, "min": m,
                        "max_execs_total": 1500 if tier == "quick" else 10000})
+    shapes = {s["name"].split(":")[0]: s for s in G.family_shapes()}
+    for deep in ("S9", "S5", "S20"):
+        for shallow in ("S1", "S2", "S11"):
+            us.append({"kind": "init-reuse", "spec": shapes[shallow], "deep": shapes[deep], "max_execs": 150})
     small = [s for s in fam if not s["name"].startswith(("F2:", "F3:", "G3:", "G2:"))] if tier == "quick" else fam
     for spec in small:
         m = R.ref_min_depth(spec)[spec["start"]]
@@ -154,6 +158,59 @@ def run_full_init(unit) -> UnitResult:
     return r
 
 
+def run_init_reuse(unit) -> UnitResult:
+    """The same initialiser object used first on a grammar with a larger minimum depth, then on a shallow one:
+    what it creates for the second grammar must not be deeper than that grammar's own first feasible depth
+    (GrowInitializer searches the shallowest usable limit) nor than the limit it is given (full / PI-grow)."""
+    from geneticengine.representations.tree.operators import FullInitializer, GrowInitializer, PositionIndependentGrowInitializer
+    from geneticengine.representations.tree.treebased import TreeBasedRepresentation
+    from geneticengine.representations.tree.initializations import MaxDepthDecider
+
+    r = UnitResult()
+    ctx = P.open_ctx(unit)
+    deep_b = G.build(unit["deep"])
+    try:
+        g = ctx.g
+        gd = deep_b.extract()
+        m = R.ref_min_depth(ctx.spec)[ctx.spec["start"]]
+        for name in ("GrowInitializer", "PositionIndependentGrowInitializer", "FullInitializer"):
+            limit = m if name == "GrowInitializer" else m + 1
+
+            def run(src, name=name, limit=limit):
+                init = {"GrowInitializer": lambda: GrowInitializer(), "FullInitializer": lambda: FullInitializer(limit),
+                        "PositionIndependentGrowInitializer": lambda: PositionIndependentGrowInitializer(limit)}[name]()
+                rep_d = TreeBasedRepresentation(gd, MaxDepthDecider(src, gd, gd.get_min_tree_depth() + 1))
+                if name == "FullInitializer":
+                    init.max_depth = gd.get_min_tree_depth() + 1
+                first = list(init.initialize(None, rep_d, src, 2, **({"max_tries": 2} if name == "GrowInitializer" else {})))
+                if name == "FullInitializer":
+                    init.max_depth = limit
+                rep = TreeBasedRepresentation(g, MaxDepthDecider(src, g, limit))
+                return [i.genotype for i in init.initialize(None, rep, src, 2, **({"max_tries": 2} if name == "GrowInitializer" else {}))]
+
+            st = ExploreStats()
+            for ex in explore(run, max_dev=1, max_execs=unit["max_execs"], horizon=3000, stats=st):
+                r.executions += 1
+                if ex.capped or ex.exc is not None:
+                    r.count("init_reuse_raised_or_capped")
+                    continue
+                r.count("programs_checked")
+                for gt in ex.result:
+                    depth = R.value_depth(gt)
+                    if depth == limit:
+                        r.nontrivial += 1
+                    if depth > limit:
+                        tm = R.term(gt)
+                        r.add_violation(Violation(PROP, f"{name}.initialize", "depth-exceeded", {"rep": "tree", "op": "init-reuse", "decider": name},
+                                                  {"unit": P.clean_unit(unit), "choices": list(ex.choices), "program": R.show(tm)[:200]},
+                                                  f"{name} used on {unit['deep']['name']} and then on {ctx.spec['name']} (limit {limit}): depth {depth}: {R.show(tm)[:120]}"))
+        r.states = 1
+    finally:
+        ctx.bundle.cleanup()
+        deep_b.cleanup()
+    return r
+
+
 def oracle(ctx, ev, r, tm):
     unit = ctx.unit
     d = unit["depth"]
@@ -183,6 +240,8 @@ def run_unit(unit) -> UnitResult:
         return run_reject(unit)
     if unit["kind"] == "full-init":
         return run_full_init(unit)
+    if unit["kind"] == "init-reuse":
+        return run_init_reuse(unit)
     return P.drive(unit, oracle)
 
 
